@@ -217,6 +217,43 @@ func runC17(c *Check) {
 						if first, n := fillCounterStart(mk); n > 0 && first >= 1 {
 							okRoot = true
 						}
+						// … or to slot k+i for the index i of a forward loop, k >= 1 (stores made
+						// through the field the list was put in)
+						nst, allShifted := 0, true
+						for _, b2 := range mis.Blocks {
+							for _, i2 := range b2.Instrs {
+								st2, ok := i2.(*ssa.Store)
+								if !ok {
+									continue
+								}
+								ia, ok := st2.Addr.(*ssa.IndexAddr)
+								if !ok {
+									continue
+								}
+								fa2 := fieldAddrOf(ia.X)
+								if !(ia.X == ssa.Value(mk)) && !(fa2 != nil && fa2.Field == fa.Field && fa2.X == fa.X) {
+									continue
+								}
+								nst++
+								add, ok := ia.Index.(*ssa.BinOp)
+								shifted := false
+								if ok && add.Op == token.ADD {
+									for _, pair := range [][2]ssa.Value{{add.X, add.Y}, {add.Y, add.X}} {
+										if k, isK := constInt(pair[0]); isK && k >= 1 {
+											if _, fwd := forwardIndex(pair[1]); fwd {
+												shifted = true
+											}
+										}
+									}
+								}
+								if !shifted {
+									allShifted = false
+								}
+							}
+						}
+						if nst > 0 && allShifted {
+							okRoot = true
+						}
 					}
 				}
 			}
